@@ -28,6 +28,10 @@ def rules(ctx):
     C02.c024(ctx)
     C06.c064(ctx)
     c015(ctx)
+    # a key (or tombstone) missing from an SST's bloom filter makes Sst::load miss it and the search fall through to
+    # an older version: the builder-side accumulation rule of C10.2 is a necessary condition of point reads too
+    from . import C10
+    C10.c102(ctx)
 
 
 def false_edges_of(f, callee_pat, arg_pred=None):
